@@ -6,7 +6,7 @@
     in the statement and are closed by [vm_compute]. *)
 From Coq Require Import ZArith List Lia Znumtheory.
 From RNT.Model Require Import Base Poly PolyModP FactorModP.
-From RNT.Refine Require Import PolyModPArith PolyZmod MonicZ HenselProofs FactorSmall C08Lists PolyModStart.
+From RNT.Refine Require Import PolyModPArith PolyZmod MonicZ HenselProofs FactorSmall C08Lists PolyModStart FmpLists.
 Import ListNotations.
 Open Scope Z_scope.
 
@@ -177,3 +177,243 @@ Proof. exact pusize_irrelevant_big. Qed.
 (** [P] the explicit [panic!()] of [squarefree] on the zero polynomial (f = 0 mod p is outside the property). *)
 Theorem squarefree_zero_panics : forall md p pu, squarefree md [] p pu = Panic POther.
 Proof. exact squarefree_zero_panics. Qed.
+
+(** ** Second wave: the product clause and the irrelevance of pusize, for all inputs
+
+    [lfprod l] = the product of g^e over the pairs (g, e) of l, as a coefficient list over Z
+    ([lprod] of the [lpow]s). The side conditions: [md = Checked] (dev profile) or a coefficient
+    vector of at most 2^64 entries (every real [Vec]) -- then no multiplicity [e * k] / [e * pusize]
+    wraps; [pusize = p] (what the caller passes when p fits a machine word) or p > deg f. *)
+
+(** [P] [squarefree_product]: for p prime and f mod p <> 0, the pairs returned by the square-free
+    decomposition stage multiply back to f modulo p up to a unit constant c. The proof goes through
+    F_p[x]: loop invariants "result * (t v^(k+1))^e ~ f" and "t | t' v"; when v has become constant
+    t' = 0, so t(x) = s(x^p) = s(x)^p by Fermat and the freshman's dream. *)
+Theorem squarefree_product : forall md p f f1 pusize out,
+  prime p ->
+  md = Checked \/ Z.of_nat (length f) <= two64 ->
+  pusize = p \/ Z.of_nat (length f) <= p ->
+  poly_mod f p = Done f1 -> f1 <> [] ->
+  squarefree md f p pusize = Done out ->
+  exists c, 0 < c < p /\ peqmod p f (pmul opsZ [c] (lfprod out)).
+Proof. exact squarefree_product_all. Qed.
+
+(** f = x (x+1)^3 = x^4 + x modulo 3 takes the p-th-root branch ((x+1)^3 = x^3 + 1); so does the
+    pure p-th power x^3 + 2 = (x+2)^3. *)
+Example squarefree_product_nonvacuous :
+  prime 3 /\ poly_mod [0; 1; 0; 0; 1] 3 = Done [0; 1; 0; 0; 1] /\
+  squarefree Checked [0; 1; 0; 0; 1] 3 3 = Done [([0; 1], 1); ([1; 1], 3)] /\
+  lfprod [([0; 1], 1); ([1; 1], 3)] = [0; 1; 3; 3; 1] /\
+  squarefree Wrapping [2; 0; 0; 1] 3 3 = Done [([2; 1], 3)] /\ lfprod [([2; 1], 3)] = [8; 12; 6; 1].
+Proof. split; [exact prime_3|]. repeat split; vm_compute; reflexivity. Qed.
+
+(** [P] [factorize_mod_p_product]: the product clause of the property, for every prime p, every f
+    with f mod p <> 0 and every stream of random bytes: if [factorize_mod_p] returns the pairs
+    (g_i, e_i) then f = lc(f mod p) * prod g_i^e_i modulo p (coefficientwise), i.e.
+    prod g_i^e_i = f / lc over F_p. With [factorize_normalised] (g_i monic, reduced, deg >= 1,
+    e_i >= 1) this is every clause of the property except irreducibility and distinctness. *)
+Theorem factorize_mod_p_product : forall md p f f1 pusize r out r',
+  prime p ->
+  md = Checked \/ Z.of_nat (length f) <= two64 ->
+  pusize = p \/ Z.of_nat (length f) <= p ->
+  poly_mod f p = Done f1 -> f1 <> [] ->
+  factorize_mod_p md f p pusize r = Done (out, r') ->
+  peqmod p f (pmul opsZ [last f1 0] (lfprod out)).
+Proof. exact factorize_product_all. Qed.
+
+(** -3 x^4 + 5 x^2 + 7 = 2 (x^2 + 3) (x^2 + 2) modulo 5: two draws of the Cantor-Zassenhaus loop. *)
+Example factorize_mod_p_product_nonvacuous :
+  prime 5 /\ poly_mod [7; 0; 5; 0; -3] 5 = Done [2; 0; 0; 0; 2] /\
+  (exists r', factorize_mod_p Checked [7; 0; 5; 0; -3] 5 5 (rng_of [0; 0; 0; 64; 0; 0; 0; 64; 0; 0; 0; 0; 0; 0; 0; 0])
+              = Done ([([3; 0; 1], 1); ([2; 0; 1], 1)], r')) /\
+  lfprod [([3; 0; 1], 1); ([2; 0; 1], 1)] = [6; 0; 5; 0; 1] /\
+  peqmod 5 [7; 0; 5; 0; -3] (pmul opsZ [2] [6; 0; 5; 0; 1]).
+Proof.
+  split; [exact prime_5|]. split; [reflexivity|]. split; [eexists; vm_compute; reflexivity|].
+  split; vm_compute; reflexivity.
+Qed.
+
+(** [P] [pusize_irrelevant]: for p prime and p > deg f (length f <= p) neither [squarefree] nor
+    [factorize_mod_p] looks at pusize: equal outcomes (value, panic or fuel) for any two values,
+    0 included -- the p-th-root branch, the only reader of pusize and the only division by it, is
+    unreachable because a non-constant polynomial with zero derivative has degree >= p.
+    Generalises the [B] theorems pusize_irrelevant_small / pusize_irrelevant_big. *)
+Theorem pusize_irrelevant : forall md p f pu pu' r,
+  prime p -> Z.of_nat (length f) <= p ->
+  squarefree md f p pu = squarefree md f p pu' /\
+  factorize_mod_p md f p pu r = factorize_mod_p md f p pu' r.
+Proof. exact pusize_irrelevant_all. Qed.
+
+(** p = 5 > deg f = 3: pusize = 0 gives the answer of pusize = 5; with p = 3 <= deg f the
+    hypothesis fails and pusize = 0 divides by zero. *)
+Example pusize_irrelevant_nonvacuous :
+  prime 5 /\ Z.of_nat (length [4; 0; 3; 1]) <= 5 /\
+  squarefree Checked [4; 0; 3; 1] 5 0 = Done [([4; 0; 3; 1], 1)] /\
+  squarefree Checked [2; 0; 0; 1] 3 0 = Panic PDiv0.
+Proof. split; [exact prime_5|]. split; [cbn; lia|]. split; vm_compute; reflexivity. Qed.
+
+(** ** Second wave: irreducibility and distinctness for all inputs
+
+    [irreducible_mod p g]: g has degree >= 1 and in every factorisation g = a b modulo p one of
+    a, b is congruent to a constant. [squarefree_mod p f]: every a with a^2 b = f modulo p is
+    congruent to a constant. [factors_degree p a d]: every reduced g, irreducible modulo p, that
+    divides a modulo p has degree d. *)
+
+(** [P] [factorize_mod_p_irreducible]: for every prime p, every f with f mod p <> 0, every draw stream
+    and both profiles: if [factorize_mod_p] returns, every returned g_i is irreducible modulo p and the
+    g_i are pairwise distinct. Proof: the product of the parts of the square-free stage (multiplicities
+    dropped) is square-free and stays the same, up to units, through the later stages, so the
+    returned factors are pairwise coprime; on a square-free part the distinct-degree stage separates
+    the degrees (F_p[x]/(g) is a field with p^deg g elements: g | X^(p^deg g) - X, and an irreducible
+    divisor of X^(p^d) - X has degree <= d), and a piece of degree in [d, 2d) all of whose irreducible
+    factors have degree d is irreducible. With [factorize_normalised] and [factorize_mod_p_product]
+    this is the whole property (partial correctness: the Cantor-Zassenhaus loop terminates with
+    probability 1 only). *)
+Theorem factorize_mod_p_irreducible : forall md p f f1 pusize r out r',
+  prime p ->
+  pusize = p \/ Z.of_nat (length f) <= p ->
+  poly_mod f p = Done f1 -> f1 <> [] ->
+  factorize_mod_p md f p pusize r = Done (out, r') ->
+  Forall (fun ge => irreducible_mod p (fst ge)) out /\ NoDup (map fst out).
+Proof. exact factorize_irreducible_all. Qed.
+
+(** The run of [factorize_mod_p_product_nonvacuous] meets the hypotheses; the predicate is not
+    trivially true: x^4 + 1 = (x^2 + 2)(x^2 + 3) modulo 5 is not [irreducible_mod]. *)
+Example factorize_mod_p_irreducible_nonvacuous :
+  prime 5 /\ poly_mod [7; 0; 5; 0; -3] 5 = Done [2; 0; 0; 0; 2] /\
+  (exists r', factorize_mod_p Wrapping [7; 0; 5; 0; -3] 5 0 (rng_of [0; 0; 0; 64; 0; 0; 0; 64; 0; 0; 0; 0; 0; 0; 0; 0])
+              = Done ([([3; 0; 1], 1); ([2; 0; 1], 1)], r')) /\
+  ~ irreducible_mod 5 [1; 0; 0; 0; 1].
+Proof.
+  split; [exact prime_5|]. split; [reflexivity|]. split; [eexists; vm_compute; reflexivity|].
+  exact irreducible_mod_neg_example.
+Qed.
+
+(** [P] [degree_separates]: distinct-degree stage: if the input is reduced, non-zero and square-free
+    modulo p, every returned (a, d) has d >= 1 and all irreducible factors of a have degree exactly d. *)
+Theorem degree_separates : forall p poly out,
+  prime p -> canonical poly -> in_range p poly -> poly <> [] -> squarefree_mod p poly ->
+  degree poly p = Done out ->
+  Forall (fun ad => 1 <= snd ad /\ factors_degree p (fst ad) (snd ad)) out.
+Proof. exact degree_separates_all. Qed.
+
+(** x^4 + 2 = (x + 1)(x + 2)(x^2 + 1) modulo 3 is square-free: 2 f + x f' = 1. *)
+Example degree_separates_nonvacuous :
+  prime 3 /\ canonical [2; 0; 0; 0; 1] /\ in_range 3 [2; 0; 0; 0; 1] /\ squarefree_mod 3 [2; 0; 0; 0; 1] /\
+  degree [2; 0; 0; 0; 1] 3 = Done [([2; 0; 1], 1); ([1; 0; 1], 2)].
+Proof.
+  split; [exact prime_3|]. split; [reflexivity|]. split; [repeat constructor; lia|].
+  split; [|vm_compute; reflexivity].
+  apply (@squarefree_mod_bezout_all 3 [2; 0; 0; 0; 1] [2] [0; 1] prime_3). vm_compute. reflexivity.
+Qed.
+
+(** [P] [degree_divides]: without any hypothesis on the (reduced, non-zero) input: every a_d produced
+    by the loop of [degree] divides X^(p^d) - X modulo p (the last entry, the left-over cofactor, is
+    not covered). *)
+Theorem degree_divides : forall p poly out,
+  prime p -> canonical poly -> in_range p poly -> poly <> [] ->
+  degree poly p = Done out ->
+  exists loop last, out = loop ++ last /\ (length last <= 1)%nat /\
+    Forall (fun ad => 1 <= snd ad /\
+      exists k, peqmod p (psub opsZ (lpow [0; 1] (Z.to_nat (p ^ snd ad))) [0; 1]) (pmul opsZ (fst ad) k)) loop.
+Proof. exact degree_dvd_all. Qed.
+
+(** x^4 + x^2 = x^2 (x^2 + 1) modulo 3 (not square-free): a_1 = 2 x divides x^3 - x; the left-over
+    cofactor 2 x (x^2 + 1), recorded with d = 3, is reducible. *)
+Example degree_divides_nonvacuous :
+  prime 3 /\ degree [0; 0; 1; 0; 1] 3 = Done [([0; 2], 1); ([0; 2; 0; 2], 3)] /\
+  peqmod 3 (psub opsZ (lpow [0; 1] (Z.to_nat (3 ^ 1))) [0; 1]) (pmul opsZ [0; 2] [-2; 0; 2]).
+Proof. split; [exact prime_3|]. split; vm_compute; reflexivity. Qed.
+
+(** ** Second wave: termination of the deterministic stages, absence of panics *)
+
+(** [P] [squarefree_total]: the square-free stage returns (no panic, the supplied fuel suffices) for
+    every prime p and f mod p <> 0 with at most 2^64 coefficients, pusize = p or p > deg f, in both
+    profiles: the inner loop strictly decreases deg t + deg v, every p-th root is shorter, and no
+    multiplicity e k or e p exceeds deg f < 2^64. *)
+Theorem squarefree_total : forall md p f f1 pusize,
+  prime p ->
+  Z.of_nat (length f) <= two64 ->
+  pusize = p \/ Z.of_nat (length f) <= p ->
+  poly_mod f p = Done f1 -> f1 <> [] ->
+  exists out, squarefree md f p pusize = Done out.
+Proof. exact squarefree_total_all. Qed.
+
+(** [P] [degree_total]: the distinct-degree stage returns on every reduced non-zero input. *)
+Theorem degree_total : forall p poly,
+  prime p -> canonical poly -> in_range p poly -> poly <> [] ->
+  exists out, degree poly p = Done out.
+Proof. exact degree_total_all. Qed.
+
+(** [P] [factorize_mod_p_no_panic]: for every prime p, f mod p <> 0 (at most 2^64 coefficients,
+    pusize = p or p > deg f), every draw stream and both profiles, [factorize_mod_p] does not
+    panic: the outcome is a value, or the model's [OutOfFuel], which can only come from the bounded
+    retry loops of the equal-degree stage (400 failed splits in a row, or 4096 rejected samples of
+    one coefficient; in the code these loops are unbounded and end with probability 1). In
+    particular [assert_eq!(factor.deg(), d)] never fires: every piece of the equal-degree stage is
+    irreducible of degree exactly d. *)
+Theorem factorize_mod_p_no_panic : forall md p f f1 pusize r,
+  prime p ->
+  Z.of_nat (length f) <= two64 ->
+  pusize = p \/ Z.of_nat (length f) <= p ->
+  poly_mod f p = Done f1 -> f1 <> [] ->
+  (exists out r', factorize_mod_p md f p pusize r = Done (out, r')) \/
+  factorize_mod_p md f p pusize r = OutOfFuel.
+Proof. exact factorize_no_panic_all. Qed.
+
+(** Both alternatives occur: the stream of [factorize_mod_p_product_nonvacuous] splits at once; an
+    empty stream draws t = 0 four hundred times and the model gives up. *)
+Example factorize_mod_p_no_panic_nonvacuous :
+  prime 5 /\ Z.of_nat (length [7; 0; 5; 0; -3]) <= two64 /\
+  poly_mod [7; 0; 5; 0; -3] 5 = Done [2; 0; 0; 0; 2] /\
+  (exists r', factorize_mod_p Checked [7; 0; 5; 0; -3] 5 5 (rng_of [0; 0; 0; 64; 0; 0; 0; 64; 0; 0; 0; 0; 0; 0; 0; 0])
+              = Done ([([3; 0; 1], 1); ([2; 0; 1], 1)], r')) /\
+  factorize_mod_p Checked [7; 0; 5; 0; -3] 5 5 (rng_of []) = OutOfFuel.
+Proof.
+  split; [exact prime_5|]. split; [vm_compute; discriminate|]. split; [reflexivity|].
+  split; [eexists; vm_compute; reflexivity|vm_compute; reflexivity].
+Qed.
+
+(** [P] [profile_irrelevant]: under the hypotheses of [squarefree_total] the release profile computes
+    exactly what the dev profile computes (no multiplicity reaches 2^64, so nothing wraps), for every
+    draw stream. *)
+Theorem profile_irrelevant : forall md p f f1 pusize r,
+  prime p ->
+  Z.of_nat (length f) <= two64 ->
+  pusize = p \/ Z.of_nat (length f) <= p ->
+  poly_mod f p = Done f1 -> f1 <> [] ->
+  factorize_mod_p md f p pusize r = factorize_mod_p Checked f p pusize r.
+Proof. exact profile_irrelevant_all. Qed.
+
+(** [P] [multiplicities_positive]: e_i >= 1 in both profiles (the release-profile case left open by
+    [factorize_normalised]). *)
+Theorem multiplicities_positive : forall md p f f1 pusize r out r',
+  prime p ->
+  Z.of_nat (length f) <= two64 ->
+  pusize = p \/ Z.of_nat (length f) <= p ->
+  poly_mod f p = Done f1 -> f1 <> [] ->
+  factorize_mod_p md f p pusize r = Done (out, r') ->
+  Forall (fun ge => 1 <= snd ge) out.
+Proof. exact multiplicities_pos_all. Qed.
+
+Example multiplicities_positive_nonvacuous :
+  prime 3 /\ Z.of_nat (length [0; 1; 0; 0; 1]) <= two64 /\
+  exists r', factorize_mod_p Wrapping [0; 1; 0; 0; 1] 3 3 (rng_of []) = Done ([([0; 1], 1); ([1; 1], 3)], r').
+Proof. split; [exact prime_3|]. split; [vm_compute; discriminate|]. eexists. vm_compute. reflexivity. Qed.
+
+(** [P] [factorize_mod_p_constant]: f mod p a non-zero constant: the empty list, no draw consumed. *)
+Theorem factorize_mod_p_constant : forall md p f c pusize r,
+  prime p -> poly_mod f p = Done [c] -> factorize_mod_p md f p pusize r = Done ([], r).
+Proof. exact factorize_constant_all. Qed.
+
+Example factorize_mod_p_constant_nonvacuous : prime 3 /\ poly_mod [5; 3; -6] 3 = Done [2].
+Proof. split; [exact prime_3|reflexivity]. Qed.
+
+(** [P] [pusize_irrelevant_beyond_word]: the last sentence of the property: for a prime p >= 2^64
+    (no machine-word copy exists; a coefficient vector has at most 2^64 entries) any two values of
+    pusize, 0 included, give the same outcome. *)
+Theorem pusize_irrelevant_beyond_word : forall md p f pu pu' r,
+  prime p -> two64 <= p -> Z.of_nat (length f) <= two64 ->
+  squarefree md f p pu = squarefree md f p pu' /\
+  factorize_mod_p md f p pu r = factorize_mod_p md f p pu' r.
+Proof. exact pusize_irrelevant_bigp. Qed.
